@@ -10,17 +10,13 @@
                         alive tensors.
    `true` as first argument of the model functions selects the repaired code, `false` the pinned upstream one.
 
-   PARTIAL (what is missing for the full statement): the full property would say
-       forall nt ms, wf nt = true -> consistent_b true nt ms = true -> <conclusions>
-   i.e. for every mask assignment the repaired build_shared_features_map can produce (same masker -> same
-   mask, frozen -> all ones).  Proved here: the conclusions from `sound_b` (C09_calc_sound,
-   C09_in_features_export, C09_export_shape_consistent — all unbounded), and the structural half of the link
-   (C09_join_same_component, C09_through_same_component, C09_shared_groups_equal_masks: the operands of every
-   sum, and a depthwise layer and its input, lie in one component and therefore get ONE masker).  Not proved in
-   general: `consistent_b true nt ms = true -> sound_b nt ms = true` (that frozen-ness as computed by the
-   closure of `pinned` suffices); it is evaluated by vm_compute on every generated case by the check
-   (run_masks returns sound_b and consistent_b) and on the witness networks below; the `_refuted` theorems show
-   that it fails for the upstream sharing (fixd = false). *)
+   FULL STRENGTH: the `_full` theorems below replace the premise `sound_b` by `consistent_b true nt ms`, i.e. they
+   hold for EVERY mask assignment the repaired build_shared_features_map can produce (one masker per sharing
+   component, masks of the layer's width, frozen components all ones) — C09_sharing_sound proves
+   consistent_b true -> sound_b for every well-formed network (invariant: in a frozen component every tensor is
+   fully alive; in any other component every tensor is an expansion of the component's single mask / single
+   concat; the closure of `pinned` is shown to have converged after length nt rounds).  The `_refuted` theorems
+   show the same implication fails for the upstream sharing (fixd = false). *)
 From Coq Require Import List Bool Arith.
 Import ListNotations.
 Require Import Plinio.Model.Calc Plinio.Proofs.Calc.
@@ -76,6 +72,40 @@ Theorem C09_shared_groups_equal_masks : forall fixd nt x y,
   x < length nt -> y < length nt ->
   nth x (labels nt) 0 = nth y (labels nt) 0 -> masker_of fixd nt x = masker_of fixd nt y.
 Proof. exact shared_groups_equal_masks. Qed.
+
+
+(* ================================================================ full strength *)
+(* every mask assignment the repaired sharing can produce satisfies the decidable premise *)
+Theorem C09_sharing_sound : forall nt ms, wf nt = true -> consistent_b true nt ms = true -> sound_b nt ms = true.
+Proof. exact P3. Qed.
+
+(* the closure over concat operands in build_shared_features_map has converged: a frozen concat has frozen operands *)
+Theorem C09_frozen_closed : forall nt, wf nt = true -> closed_b nt = true.
+Proof. exact closed_b_holds. Qed.
+
+Theorem C09_calc_sound_full : forall nt ms, wf nt = true -> consistent_b true nt ms = true ->
+  forall i, i < length nt -> consumer nt i = true ->
+    smask (register_all true nt) ms (input_calc true nt i) = nth (src1 (node_at nt i)) (alive nt ms) [] /\
+    sfeat (register_all true nt) ms (input_calc true nt i) = count (nth (src1 (node_at nt i)) (alive nt ms) []).
+Proof. intros nt ms H1 H2. exact (calc_sound_fixed nt ms H1 (P3 nt ms H1 H2)). Qed.
+
+Theorem C09_in_features_export_full : forall nt ms, wf nt = true -> consistent_b true nt ms = true ->
+  forall i, i < length nt -> consumer nt i = true ->
+    export_in true nt ms i = count (nth (src1 (node_at nt i)) (alive nt ms) []).
+Proof. intros nt ms H1 H2. exact (in_features_export nt ms H1 (P3 nt ms H1 H2) (names_ok_fixed nt H1)). Qed.
+
+Theorem C09_export_shape_consistent_full : forall nt ms, wf nt = true -> consistent_b true nt ms = true ->
+  shape_ok true nt ms = true.
+Proof. intros nt ms H1 H2. exact (export_shape_consistent_fixed nt ms H1 (P3 nt ms H1 H2)). Qed.
+
+(* identical on both sides of a residual sum, for every mask assignment *)
+Theorem C09_sum_operands_equal_full : forall nt ms, wf nt = true -> consistent_b true nt ms = true ->
+  forall i a b t, i < length nt -> node_at nt i = NJoin a b t ->
+    nth a (alive nt ms) [] = nth b (alive nt ms) [].
+Proof.
+  intros nt ms H1 H2 i a b t Hi E.
+  pose proof (sound_at nt ms i (P3 nt ms H1 H2) Hi) as S. rewrite E in S. exact (lbeq_eq _ _ S).
+Qed.
 
 (* --- the pinned upstream behaviour violates the statements (witness networks in Proofs/Calc.v) *)
 (* DESIGN §9 row 6: cat(x, excluded_conv(x)) -> searchable layer reports 10 input features instead of 8 *)
@@ -140,6 +170,12 @@ Print Assumptions C09_export_shape_consistent.
 Print Assumptions C09_join_same_component.
 Print Assumptions C09_through_same_component.
 Print Assumptions C09_shared_groups_equal_masks.
+Print Assumptions C09_sharing_sound.
+Print Assumptions C09_frozen_closed.
+Print Assumptions C09_calc_sound_full.
+Print Assumptions C09_in_features_export_full.
+Print Assumptions C09_export_shape_consistent_full.
+Print Assumptions C09_sum_operands_equal_full.
 Print Assumptions C09_calc_sound_refuted.
 Print Assumptions C09_flatten_names_refuted.
 Print Assumptions C09_dup_cat_refuted.
